@@ -46,6 +46,9 @@ ALPHABET = [
     (" ip address 010.001.002.003 255.255.255.000 wildcard 0.0.0.063", {"ip": [2]}),
     (" ipv6 address 2001:db8::1/64 eui", {"ip": [2]}),
     ("ntp server 010.200.001.007 source 10.200.1.7 peer 10.201.1.7", {"ip": [6]}),
+    # what is attached to an address (prefix length, zone index, port, brackets) is not part of it
+    (" ipv6 route 2001:db8:1::/48 fe80::1%eth0 [2001:db8::7]:443 10.9.8.7:179", {"ip": [2, 3, 4, 5], "keep": {
+        2: ("", "/48"), 3: ("", "%eth0"), 4: ("[", "]:443"), 5: ("", ":179")}}),
     ("password " + S1, {"pwd": [1]}),
     ("  snmp-server community " + S2 + " ro ", {"pwd": [2]}),
     ("enable password " + S1, {"pwd": [2]}),
@@ -143,6 +146,12 @@ def judge_line(F, src, allowed, out, ctx, res, rc):
         for j, (h, t) in allowed.get("wrap", {}).items():
             if j < len(ot) and not (ot[j].startswith(h) and ot[j].endswith(t)):
                 res.violation("text-around-secret-changed|" + "+".join(feats),
+                              "%s: %r -> %r (token %d should keep %r...%r)" % (ctx, src, out, j, h, t), rc)
+                return changed
+    if F["ip"]:
+        for j, (h, t) in allowed.get("keep", {}).items():
+            if j < len(ot) and not (ot[j].startswith(h) and ot[j].endswith(t)):
+                res.violation("text-attached-to-an-address-changed|" + "+".join(feats),
                               "%s: %r -> %r (token %d should keep %r...%r)" % (ctx, src, out, j, h, t), rc)
                 return changed
     collapse_ok = F["pwd"] or F["word"]
